@@ -238,6 +238,15 @@ func (s *c15Sched) at(point string, args []interface{}) {
 	}
 }
 
+func (s *c15Sched) lastEvent(tid uint64) string {
+	s.mu.Lock()
+	defer s.mu.Unlock()
+	if ev := s.events[tid]; len(ev) > 0 {
+		return ev[len(ev)-1]
+	}
+	return ""
+}
+
 func (s *c15Sched) takeParked(tid uint64) chan struct{} {
 	s.mu.Lock()
 	defer s.mu.Unlock()
@@ -246,7 +255,7 @@ func (s *c15Sched) takeParked(tid uint64) chan struct{} {
 	return ch
 }
 
-var c15HsFile, c15VtFile *os.File
+var c15HsFile, c15VtFile, c15HangFile *os.File
 
 func c15Side(f **os.File, name string, line string) {
 	if *f == nil {
@@ -390,9 +399,26 @@ func c15Debugged(c *c15Run, kill bool) (threads []*c15Thread, lg *memLog, rec *r
 	last := time.Now()
 	ctlRng := NewRand(c.seed + 77)
 	stopped := false
+	var stuckSince time.Time
+	spins := 0
+	idle := func() {
+		spins++
+		if spins < 200 {
+			runtime.Gosched()
+		} else {
+			time.Sleep(100 * time.Microsecond)
+		}
+	}
 	for !allEnded() {
-		if time.Since(last) > 2500*time.Millisecond {
+		// A hang is decided from the hook state where possible: every thread that has not ended
+		// stands in cond.Wait() although the debugger reports it as running (the lost resume),
+		// unchanged for a grace period. Without that evidence only a long time without any
+		// progress counts (the machine may be heavily loaded).
+		if time.Since(last) > 20*time.Second || (!stuckSince.IsZero() && time.Since(stuckSince) > 2*time.Second) {
 			hang = true
+			buf := make([]byte, 1<<20)
+			buf = buf[:runtime.Stack(buf, true)]
+			c15Side(&c15HangFile, "c15-hang", c.payload+"\n"+string(buf))
 			break
 		}
 		st, _ := rec.HandleInput("status")
@@ -413,14 +439,37 @@ func c15Debugged(c *c15Run, kill bool) (threads []*c15Thread, lg *memLog, rec *r
 				stopped = true
 				last = time.Now()
 			} else {
-				runtime.Gosched()
+				idle()
 			}
 			continue
 		}
 		if len(suspended) == 0 {
-			runtime.Gosched()
+			lost := 0
+			alive := 0
+			for _, t := range threads {
+				select {
+				case <-t.ended:
+				default:
+					alive++
+					if s, ok := tmap[fmt.Sprint(t.tid)]; ok {
+						if r, ok := s["threadRunning"].(bool); ok && r && sched.lastEvent(t.tid) == "w" {
+							lost++
+						}
+					}
+				}
+			}
+			if alive > 0 && lost == alive {
+				if stuckSince.IsZero() {
+					stuckSince = time.Now()
+				}
+			} else {
+				stuckSince = time.Time{}
+			}
+			idle()
 			continue
 		}
+		stuckSince = time.Time{}
+		spins = 0
 		for _, id := range suspended {
 			t := byTid[id]
 			if t == nil {
@@ -958,7 +1007,7 @@ var c15Corpus = []string{
 
 func init() {
 	register("C15", &Prop{
-		Timeout:          20 * time.Second,
+		Timeout:          90 * time.Second,
 		NoRestartOnPanic: true,
 		Setup: func() {
 			if c15HooksPresent() {
